@@ -462,6 +462,10 @@ def _nested_call_regions_rule(ctx, res) -> None:
             for t in a.targets:
                 if isinstance(t, ast.Tuple) and len(t.elts) == 2 and isinstance(t.elts[1], ast.Name):
                     paren_ends.add(t.elts[1].id)
+        # `call_end = word_finder.get_word_parens_range(...)[1]`
+        if isinstance(a, ast.Assign) and isinstance(a.value, ast.Subscript) and isinstance(a.value.value, ast.Call) and call_name(a.value.value) == "get_word_parens_range" \
+                and isinstance(a.value.slice, ast.Constant) and a.value.slice.value == 1:
+            paren_ends |= {t.id for t in a.targets if isinstance(t, ast.Name)}
     if not paren_ends:
         raise AnalysisError("anchor=_ChangeCallsInModule.get_changed_module: the scan for the closing parenthesis of a call (get_word_parens_range) not found")
     collected = [c for c in calls_in(fnode) if call_name(c) == "add_change" and len(c.args) >= 2 and isinstance(c.args[1], ast.Name) and c.args[1].id in paren_ends]
@@ -474,15 +478,33 @@ def _nested_call_regions_rule(ctx, res) -> None:
     spliced = {t.id for a in ast.walk(lp) if isinstance(a, ast.Assign) and isinstance(a.value, ast.BinOp) for t in a.targets if isinstance(t, ast.Name)
                and any(isinstance(sl, ast.Subscript) and isinstance(sl.value, ast.Name) and sl.value.id == t.id for sl in ast.walk(a.value))}
     # (every call of the changer: what its text argument is cut from -- a name, or "<other>" for anything else, e.g. `self.source[...]`)
-    cut_from = {(c.args[-1].value.id if isinstance(c.args[-1], ast.Subscript) and isinstance(c.args[-1].value, ast.Name) else "<other>")
-                for c in calls_in(lp) if call_name(c) in ("change_call", "change_definition") and c.args}
+    def text_arg(c):
+        e = c.args[-1]
+        if isinstance(e, ast.Name):  # a local that holds the slice (the parameter of a step read in place)
+            e = common._subst_single_locals(fnode, e)
+        return e.value.id if isinstance(e, ast.Subscript) and isinstance(e.value, ast.Name) else "<other>"
+
+    cut_from = {text_arg(c) for c in calls_in(lp) if call_name(c) in ("change_call", "change_definition") and c.args}
     rescans = any(call_name(c) == "Worder" and c.args and isinstance(c.args[0], ast.Name) and c.args[0].id in spliced for c in calls_in(lp))
-    sequential = backwards and bool(spliced) and cut_from <= spliced and bool(cut_from) and rescans
+    # the rescan is decided by where the CALL ends (its closing parenthesis), not where its name ends: the name of an enclosing call always
+    # lies before the rewritten text
+    rescan_test_ok = True
+    if rescans:
+        lcfg = CFG(fnode)
+        for nd in lcfg.nodes:
+            if nd.ast is not None and nd.kind == "stmt" and any(call_name(c) == "Worder" and c.args and isinstance(c.args[0], ast.Name) and c.args[0].id in spliced
+                                                                for c in calls_in(nd.ast)) and any(y is nd.ast for y in ast.walk(lp)):
+                tests = [t for t, pol in lcfg.guards(nd.id) if isinstance(t, ast.Compare) and any(isinstance(y, ast.Name) for y in ast.walk(t)) and any(y is t for y in ast.walk(lp))]
+                if tests and not any(isinstance(y, ast.Name) and y.id in paren_ends for t in tests for y in ast.walk(t)):
+                    rescan_test_ok = False
+    sequential = backwards and bool(spliced) and cut_from <= spliced and bool(cut_from) and rescans and rescan_test_ok
     ok = not collected and sequential
     why = ("the replacements reach to the closing parenthesis and are collected as independent regions (`add_change(start, end_parens, ...)`)" if collected else
            "the occurrences are not rewritten from the last to the first" if not backwards else
            "the text handed to the call changer is not cut from the working text the replacements are spliced into" if not (spliced and cut_from and cut_from <= spliced) else
-           "the closing parenthesis is not looked for again on the working text after an inner call was rewritten")
+           "the closing parenthesis is not looked for again on the working text after an inner call was rewritten" if not rescans else
+           "whether a call reaches into rewritten text is decided without looking at the end of the call (its closing parenthesis): the name of an enclosing call always ends "
+           "before the rewritten text, so the scan is never redone and the outer call is cut at a stale offset")
     res.add("R06.17", "_ChangeCallsInModule.get_changed_module|nested-call-regions", ok, f.where,
             "call sites are rewritten from the last to the first on a working text: a call among the arguments of another call is rewritten first and the outer call takes its new text" if ok else
             f"get_changed_module: {why}.  The region of a call contains its arguments, and an argument can be another call of the changed function: for `f(f(1, 2), 3)` two overlapping "
